@@ -198,7 +198,7 @@ def join_with_limit(  # noqa: PLR0911
 def error_context(text: str, index: int) -> tuple[str, int, int]:
     """Return a (line, lineno, col) tuple for position `index` in `text`."""
     if not text:
-        return ("", 1, 0)
+        return ("", 1, index + 1)
 
     lines = text.splitlines(keepends=True)
     cumulative_length = 0
